@@ -28,8 +28,9 @@ NAMED = ['XRangeROI', 'YRangeROI', 'RectangularROI', 'CategoricalROI', 'Circular
 def run(ctx):
     ix = ctx.index
     f = ix.func(FUNC)
-    rule_a(ctx, ix, f)
-    rule_b(ctx, ix, f)
+    ctx.guard(rule_a, ctx, ix, f)
+    ctx.guard(rule_b, ctx, ix, f)
+    ctx.guard(rule_c, ctx, ix)
 
 
 # ---------------------------------------------------------------------------------------
@@ -391,3 +392,43 @@ def rule_b(ctx, ix, f):
     ok = any(unparse(st.value) == roi_p for st in rs) or any(kwarg(c, 'roi') is not None and unparse(kwarg(c, 'roi')) == roi_p for c in ctor)
     ctx.ob(R, 'glue.core.subset:roi_to_subset_state numeric roi', 'the selection keeps the drawn region', ok,
            detail='the numeric branch does not store the region in the selection', where=f.where, nontrivial=False)
+
+
+def rule_c(ctx, ix):
+    """contains() looks categories up with searchsorted, so every store into .categories must be a sorted unique array."""
+    R = 'C09.c'
+    ctx.describe(R, 'categorical regions keep their categories sorted (contains() uses searchsorted)', floor=2)
+    c = ix.cls('glue.core.roi.CategoricalROI')
+    cont = c.resolve_func('contains')
+    if cont is None:
+        raise AnalysisError('CategoricalROI.contains vanished')
+    uses_ss = any(call_name(x) == 'searchsorted' for x in calls_in(cont.node))
+    if not uses_ss:
+        ctx.ob(R, cont.construct, 'contains() no longer relies on sorted categories', True, nontrivial=False)
+        return
+    n = 0
+    for name, m in sorted(c.members.items()):
+        f = m.func
+        if f is None:
+            continue
+        insts = {f.self_name} if f.self_name and not f.has_decorator('staticmethod', 'classmethod') else set()
+        for st in walk_no_nested(f.node):
+            if isinstance(st, ast.Assign) and isinstance(st.value, ast.Call) and isinstance(st.targets[0], ast.Name):
+                k = ix.resolve_class(f.module, st.value.func)
+                if (k is not None and k.is_subclass_of(c)) or unparse(st.value.func) == 'cls':
+                    insts.add(st.targets[0].id)
+        for st in walk_no_nested(f.node):
+            if not isinstance(st, ast.Assign):
+                continue
+            for t in st.targets:
+                if isinstance(t, ast.Attribute) and t.attr == 'categories' and isinstance(t.value, ast.Name) and t.value.id in insts:
+                    n += 1
+                    v = st.value
+                    ok = (isinstance(v, ast.Constant) and v.value is None) or \
+                        (isinstance(v, ast.Call) and ix.resolve_expr(f.module, v.func) in ('numpy.unique', 'numpy.sort', 'sorted'))
+                    ctx.ob(R, '%s `%s`' % (f.construct, norm(st)), 'categories are stored sorted (np.unique / None)', ok,
+                           detail='%s stores the categories as `%s` without sorting them, but contains() finds labels with '
+                                  'np.searchsorted: for category orders that are not already sorted, labels inside the region are '
+                                  'not found' % (f.construct, unparse(v)), where=where(f, st))
+    if n < 2:
+        raise AnalysisError('CategoricalROI: only %d stores into .categories recognised' % n)
